@@ -53,7 +53,8 @@ SCOPES = {
         # one seeded shard (1/12 of the category vectors) of n = 7, sub-sampled
         ("n7shard", dict(MinN=7, MaxN=7, CandN=0, ShardK=12, ShardI=SEED % 12, **ANY), 30000, False),
         ("n8twomixed", dict(MinN=8, MaxN=8, CandN=0, ShardK=1, ShardI=0, BatWiring="own", Shape="twomixed", ShapeCats={"PVINV", "BATINV", "EV", "CHP", "METER"}), 40000, False),
-        ("n2to5wired", dict(MinN=2, MaxN=5, **WIRED), 40000, False),
+        # n = 5 with every wiring (31^4 wirings of four inverters alone) did not finish in 15 min: n <= 4 here too
+        ("n2to4wired", dict(MinN=2, MaxN=4, **WIRED), None, False),
     ],
 }
 
